@@ -43,18 +43,50 @@ def esc(t):
     return t.replace('&', '&amp;').replace('<', '&lt;').replace('>', '&gt;')
 
 
-def render(texts):
+NOSHAPE = (0, 0, 0, 0)
+
+
+def pick_shape(rng):
+    """empty siblings in front of the text-bearing elements: 0 none, 1 self-closing (<x/>), 2 open/close (<x></x>) — for template, location, label, transition"""
+    return tuple(rng.choice([0, 0, 1, 2]) for _ in range(4))
+
+
+def empty(tag, attrs, kids, how):
+    if how == 0: return ''
+    if how == 1 and not kids: return '<%s%s/>' % (tag, attrs)
+    return '<%s%s>%s</%s>' % (tag, attrs, kids, tag)
+
+
+def adjust(path, shape):
+    """the XPath of a block of the base layout when the empty siblings of `shape` precede it"""
+    pt, pl, pb, ptr = (1 if x else 0 for x in shape)
+    m = re.match(r'^template\[(\d)\](.*)$', path)
+    if not m:
+        return path
+    k, rest = int(m.group(1)), m.group(2)
+    if k == 1:
+        rest = re.sub(r'^/location\[1\]', '/location[%d]' % (1 + pl), rest)
+        mt = re.match(r'^/transition\[(\d)\]/label\[(\d)\]$', rest)
+        if mt:
+            tr, lb = int(mt.group(1)), int(mt.group(2))
+            rest = '/transition[%d]/label[%d]' % (tr + ptr, lb + (pb if tr == 1 else 0))
+    return 'template[%d]%s' % (k + pt, rest)
+
+
+def render(texts, shape=NOSHAPE):
     g = lambda n: esc(texts[n])
+    st, sl, sb, str_ = shape
     return '''<?xml version="1.0" encoding="utf-8"?>
 <nta><declaration>%s</declaration>
+''' % g('gdecl') + empty('template', '', '<name>T0</name>' + empty('location', ' id="id8"', '', 1) + '<init ref="id8"/>', 2 if st else 0) + '''
 <template><name>T1</name><parameter>%s</parameter><declaration>%s</declaration>
-<location id="id0"><label kind="invariant">%s</label></location><location id="id1"/><init ref="id0"/>
-<transition><source ref="id0"/><target ref="id1"/><label kind="select">%s</label><label kind="guard">%s</label><label kind="synchronisation">%s</label><label kind="assignment">%s</label></transition>
+''' % (g('t1param'), g('t1decl')) + empty('location', ' id="id7"', '', sl) + '''<location id="id0"><label kind="invariant">%s</label></location><location id="id1"/><init ref="id0"/>
+''' % g('t1inv') + empty('transition', '', '<source ref="id1"/><target ref="id1"/>', 2 if str_ else 0) + '''<transition><source ref="id0"/><target ref="id1"/>''' + empty('label', ' kind="comments"', '', sb) + '''<label kind="select">%s</label><label kind="guard">%s</label><label kind="synchronisation">%s</label><label kind="assignment">%s</label></transition>
 <transition><source ref="id1"/><target ref="id0"/><label kind="guard">%s</label><label kind="assignment">%s</label></transition>
 </template>
 <template><name>T2</name><declaration>%s</declaration><location id="id2"/><init ref="id2"/>
 <transition><source ref="id2"/><target ref="id2"/><label kind="guard">%s</label><label kind="synchronisation">%s</label></transition></template>
-<system>%s</system></nta>''' % tuple(g(n) for n in ['gdecl', 't1param', 't1decl', 't1inv', 't1select', 't1guard', 't1sync', 't1assign', 't1guard2', 't1assign2', 't2decl', 't2guard', 't2sync', 'system'])
+<system>%s</system></nta>''' % tuple(g(n) for n in ['t1select', 't1guard', 't1sync', 't1assign', 't1guard2', 't1assign2', 't2decl', 't2guard', 't2sync', 'system'])
 
 
 LEX = re.compile(r'(?P<cont>\\[\t ]*\n)|(?P<sl>//[^\n]*)|(?P<ws>[ \t]+)|(?P<co>/\*)|(?P<nl>\n+)|(?P<crlf>(?:\r\n)+)|(?P<str>"[^"]+")|(?P<id>[A-Za-z_][A-Za-z0-9_$#]*)|(?P<num>[0-9]+(?:\.[0-9]+)?)|(?P<op><<=|>>=|-->|<=|>=|==|!=|&&|\|\||\+\+|--|\+=|-=|\*=|/=|%=|:=|<\?|>\?|<<|>>|->)|(?P<other>.)', re.S)
@@ -157,7 +189,8 @@ def check(run):
                     texts = {}
                     for (n2, p2, k2, t2) in blocks:
                         texts[n2] = layout(ft if n2 == bname else t2, rng, ('lines' if (fault == 'unterminated-comment' and n2 == bname and style in ('comments', 'mixed')) else style))
-                    cases.append(dict(block=bname, path='/nta/' + bpath, kind=kind, fault=fault, pos=pos, texts=texts, style=style, xml=render(texts), tokens=ft))
+                    shape = pick_shape(rng)
+                    cases.append(dict(block=bname, path='/nta/' + adjust(bpath, shape), kind=kind, fault=fault, pos=pos, texts=texts, style=style, xml=render(texts, shape), tokens=ft))
     # string literals: the one lexeme that may contain line ends without being a line-end rule
     for lit, nm in (('"ab"', 'string'), ('"a\nb"', 'string-multiline'), ('"a\nb\nc"', 'string-multiline')):
         blocks = base_blocks(rng)
